@@ -36,16 +36,20 @@ class _LoadAndSave:
     customize the behavior if needed (for instance, to introduce additional locks).
     """
 
-    def __init__(self, collection):
+    def __init__(self, collection, load=True):
         self._collection = collection
+        # Destructive operations on a root (clear, reset) take the same locks
+        # in the same order and save on exit, but do not load first.
+        self._load = load
 
     def __enter__(self):
         self._collection._thread_lock.__enter__()
-        try:
-            self._collection._load()
-        except BaseException:
-            self._collection._thread_lock.__exit__(None, None, None)
-            raise
+        if self._load:
+            try:
+                self._collection._load()
+            except BaseException:
+                self._collection._thread_lock.__exit__(None, None, None)
+                raise
 
     def __exit__(self, exc_type, exc_val, exc_tb):
         try:
@@ -187,10 +191,12 @@ class SyncedCollection(Collection):
             self._root = root
             self._suspend_sync = root._suspend_sync
             self._load_and_save = root._load_and_save
+            self._lock_and_save = root._lock_and_save
         else:
             self._root = None
             self._suspend_sync = _CounterContext()
             self._load_and_save = self._LoadSaveType(self)
+            self._lock_and_save = self._LoadSaveType(self, load=False)
 
         if self._supports_threading:
             with self._cls_lock:
